@@ -190,6 +190,7 @@ func (d *driver) env(st behav.Step) string {
 // the coordinator is clean (NORMAL, no current job, nothing queued).
 func (d *driver) drain() (clean bool, o Obs, stuck string) {
 	end := time.Now().Add(drainDeadline)
+	extended := false
 	for {
 		okRead := Within(stepDeadline, func() { o = d.s.Observe() })
 		if !okRead {
@@ -217,6 +218,11 @@ func (d *driver) drain() (clean bool, o Obs, stuck string) {
 			}
 		}
 		if time.Now().After(end) {
+			if !extended && extend() {
+				extended = true
+				end = time.Now().Add(4 * drainDeadline)
+				continue
+			}
 			return false, o, ""
 		}
 		time.Sleep(500 * time.Microsecond)
@@ -264,7 +270,7 @@ func runBehaviour(c *c22Case, cov func(string)) (r caseResult) {
 			if !s.ReleaseRunner(j, stepDeadline) {
 				return finish(d.failure(st, i, "job_not_started", "", "run() of the job did not start"), false)
 			}
-			if !poll(stepDeadline, func() bool {
+			if !Poll(stepDeadline, func() bool {
 				return s.CountEvents(j, "result_send", "result_drop") > before || len(s.B.Instr()) > nout
 			}) {
 				return finish(d.failure(st, i, "job_stuck", "", "run() neither sent instructions nor a result"), true)
@@ -326,8 +332,8 @@ func runBehaviour(c *c22Case, cov func(string)) (r caseResult) {
 			return field == ""
 		}
 		okObs := false
-		readable := Within(stepDeadline+time.Second, func() {
-			okObs = poll(stepDeadline, match)
+		readable := Within(6*stepDeadline, func() {
+			okObs = Poll(stepDeadline, match)
 			if okObs && !fine {
 				time.Sleep(3 * time.Millisecond)
 				okObs = match()
